@@ -1019,10 +1019,8 @@ func (ci *ChainIndex) UnmarshalText(b []byte) (err error) {
 		return errors.New("decoding <height>::<id> failed: wrong number of separators")
 	} else if ci.Height, err = strconv.ParseUint(string(parts[0]), 10, 64); err != nil {
 		return fmt.Errorf("decoding <height>::<id> failed: %w", err)
-	} else if n, err := hex.Decode(ci.ID[:], parts[1]); err != nil {
+	} else if err := unmarshalHex(ci.ID[:], parts[1]); err != nil {
 		return fmt.Errorf("decoding <height>::<id> failed: %w", err)
-	} else if n < len(ci.ID) {
-		return fmt.Errorf("decoding <height>::<id> failed: %w", io.ErrUnexpectedEOF)
 	}
 	return nil
 }
